@@ -50,6 +50,15 @@ BLANK_VOCAB = (["[%s%s%s]" % (at, op, t) for at in (".", "a") for op in ("=", "^
 BLANK_VALUES = [{"k": "str", "v": v} for v in (" a", "a ", " ", "a b", " 1")] + [{"k": "int", "v": "1"}]
 BLANK_KEYS = ["a", " a"]
 
+# look-alike keys: a Hash holding BOTH spellings of an integer-looking key - the text key '1' and the integer key 1 are two
+# keys in YAML - in either order (docs_of_size writes keys in the order of the list), next to an ordinary key
+TWIN_KEYSETS = [["1", 1, "a"], [1, "1", "a"], ["-1", -1, "a"], [-1, "-1", "a"]]
+TWIN_VALUES = [{"k": "null"}, {"k": "int", "v": "1"}, {"k": "str", "v": "a"}]
+TWIN_VOCAB = ["1", "01", "0", "-1", "-01", "a", "*", "**", "1*", "[.=1]", "[.!=1]", "[.^1]", "[.=-1]", "[.>0]", "[1=1]", "[1=a]", "[1!=a]",
+              "[-1=a]", "[1:1]", "[0:2]", "[-1:1]", "[has_child(1)]", "[!has_child(1)]", "[has_child(-1)]", "[name()]", "[parent()]",
+              "[max(1)]", "[min(1)]", "[unique(1)]"]
+TWIN_CORE = ["1", "-1", "a", "*", "**", "[0]", "[.=1]", "[1=1]", "[1=a]", "[has_child(1)]", "[name()]", "[parent()]"]
+
 CORE = ["a", "b", "1", "-1", "[0]", "[-1]", "[-2]", "[0:2]", "[1:1]", "[a:b]", "[&x]",
         "[.=a]", "[.=1]", "[.!=1]", "[.^a]", "[.>0]", "[a=1]", "[a!=1]", "[a.b=1]", "[.=~/^a/]",
         "a*", "*", "**", "[has_child(a)]", "[parent()]", "[max(a)]", "[name()]"]
@@ -125,6 +134,52 @@ def small_docs(maxn, keys=KEYS, values=VALUES):
     return out
 
 
+def has_twin_keys(j):
+    """Does some Hash of the document hold an integer key and the text key of the same spelling?"""
+    if j["k"] == "map":
+        ks = [k for k, _v in j["e"]]
+        if any(isinstance(k, int) and str(k) in ks for k in ks):
+            return True
+        return any(has_twin_keys(v) for _k, v in j["e"])
+    if j["k"] == "seq":
+        return any(has_twin_keys(v) for v in j["i"])
+    return False
+
+
+def twin_cases():
+    """The look-alike key layer (complete, no randomness): (a) every document with <= 3 nodes over each key list of
+    TWIN_KEYSETS and TWIN_VALUES in which a Hash holds both spellings of a key x every one-segment path of TWIN_VOCAB and
+    every two-segment path of TWIN_CORE; (b) every such Hash with scalar values placed under a key, in a list, in an
+    Array-of-Hashes next to a record holding only one spelling, under a key of the records of an Array-of-Hashes, and in a
+    list under a key x every two-segment path of TWIN_CORE and the three-segment paths that reach the key through
+    key / index / pass-through / wildcard / deep-traversal prefixes."""
+    one = [[v] for v in TWIN_VOCAB]
+    two = [[a, b] for a in TWIN_CORE for b in TWIN_CORE]
+    pre = ["s", "u", "*", "**", "[0]", "[1]"]
+    three = [[a, b, c] for a in pre for b in pre for c in ("1", "-1")] + [[a, c, t] for a in pre for c in ("1", "-1")
+                                                                        for t in ("[name()]", "[parent()]", "[.=a]")]
+    cases, ndocs = [], 0
+    for keys in TWIN_KEYSETS:
+        docs = [d for d in small_docs(3, keys, TWIN_VALUES) if has_twin_keys(d)]
+        ndocs += len(docs)
+        for d in docs:
+            cases += [(d, p) for p in one + two]
+        lone = {"k": "map", "e": [[int(keys[0]), {"k": "str", "v": "a"}]]}          # only the integer spelling
+        lone_t = {"k": "map", "e": [[str(keys[0]), {"k": "int", "v": "1"}]]}        # only the text spelling
+        for t in docs:
+            if any(v["k"] in ("map", "seq", "set") for _k, v in t["e"]) or int(keys[0]) < 0:
+                continue        # (b) for the Hashes with scalar values; the negative spellings have part (a) only
+            wrapped = [{"k": "map", "e": [["s", t], ["u", lone]]},
+                       {"k": "seq", "i": [t]},
+                       {"k": "seq", "i": [lone, t, lone_t]},
+                       {"k": "seq", "i": [{"k": "map", "e": [["u", t]]}, {"k": "map", "e": [["u", lone]]}]},
+                       {"k": "map", "e": [["s", {"k": "seq", "i": [t, lone]}]]}]
+            ndocs += len(wrapped)
+            for d in wrapped:
+                cases += [(d, p) for p in two + three]
+    return cases, ndocs
+
+
 def anchored_variants(rng, docs, n):
     """A few documents with anchors x / y on immediate children (exhaustive layer has no anchors otherwise)."""
     out = []
@@ -152,8 +207,10 @@ RVALS = VALUES + [{"k": "int", "v": "-1"}, {"k": "int", "v": "10"}, {"k": "str",
 PUNCT_KEYS = ["a.b", "a/b", "a\\b", "(a)", "a[0]", "[b", "a]", "^a", "a$", "%a", "x y", "it's", 'q"q', "a", "b", 1]
 
 
-def random_doc(rng, budget=25, depth=0, anchors=None, keys=None):
-    """Random document with <= budget nodes: maps, seqs, Arrays-of-Hashes, sets, anchors/aliases."""
+def random_doc(rng, budget=25, depth=0, anchors=None, keys=None, twins=False):
+    """Random document with <= budget nodes: maps, seqs, Arrays-of-Hashes, sets, anchors/aliases.
+    twins: a Hash may hold an integer key next to the text key of the same spelling (1 and '1'); off by default (C02 / C15
+    documents are unchanged)."""
     if anchors is None:
         anchors = {}
     if keys is None:
@@ -182,7 +239,7 @@ def random_doc(rng, budget=25, depth=0, anchors=None, keys=None):
     if r < 0.5:
         # Array of Hashes (sometimes with a null or a stray scalar)
         items = []
-        keyset = rng.sample(["a", "b", "ab", "c", 1], rng.randint(1, 3))
+        keyset = rng.sample(["a", "b", "ab", "c", 1, "1"] if twins else ["a", "b", "ab", "c", 1], rng.randint(1, 3))
         for _ in range(nkids):
             q = rng.random()
             if q < 0.1:
@@ -193,16 +250,16 @@ def random_doc(rng, budget=25, depth=0, anchors=None, keys=None):
                 es = []
                 for k in keyset:
                     if rng.random() < 0.8:
-                        es.append([k, random_doc(rng, max(1, share // max(1, len(keyset))), depth + 2, anchors, keys)])
+                        es.append([k, random_doc(rng, max(1, share // max(1, len(keyset))), depth + 2, anchors, keys, twins)])
                 items.append({"k": "map", "e": es})
         out = {"k": "seq", "i": items}
     elif r < 0.72:
-        out = {"k": "seq", "i": [random_doc(rng, share, depth + 1, anchors, keys) for _ in range(nkids)]}
+        out = {"k": "seq", "i": [random_doc(rng, share, depth + 1, anchors, keys, twins) for _ in range(nkids)]}
     else:
         ks = rng.sample(keys, min(nkids, len(keys)))
-        if "1" in ks and 1 in ks:
+        if "1" in ks and 1 in ks and not twins:
             ks.remove("1")
-        out = {"k": "map", "e": [[k, random_doc(rng, share, depth + 1, anchors, keys)] for k in ks]}
+        out = {"k": "map", "e": [[k, random_doc(rng, share, depth + 1, anchors, keys, twins)] for k in ks]}
     if rng.random() < 0.06:
         name = rng.choice(["x", "y", "z"])
         if name not in anchors:
